@@ -7,6 +7,7 @@ import (
 	"hash"
 	"io"
 	"math/rand/v2"
+	"runtime/debug"
 	"strings"
 	"testing"
 
@@ -106,6 +107,7 @@ func c07state(k *c07kind, size int, msg []byte, squeeze int) ([]byte, error) {
 func TestC07(t *testing.T) {
 	m := mon.New(t, "C07")
 	defer m.Done()
+	defer debug.SetGCPercent(debug.SetGCPercent(800)) // millions of tiny short-lived hashes; live heap stays small
 	m.Rule("(a) transparency: kind in {blake2b (every digest size 1..64), blake2s-256, legacy Keccak-256/512}; write history 0..600 bytes (strata: exact multiples of the block size/rate so that a FULL buffered block is marshaled, ±1, short, uniform) in random chunks; at 1..3 points (incl. before any write, at the end and at a full block) a random member of {original, earlier copies} is marshaled and unmarshaled into a fresh hash; all members and a never-marshaled control receive the same later writes; every Sum compared across members, with the control and with the reference digest (h/ref/blake2, h/ref/keccakleg); Keccak also in squeezing direction (Read continuation). (b) corrupt states: for each genuine base state, EVERY byte position set to EVERY value 0..255 (covers magic, h, counters, size, block, offset / rate, sponge, n, direction), the full size×offset (blake) and n×direction, rate×n (Keccak) cross products, every truncation/extension length, random strings; after a nil-error UnmarshalBinary six probe sequences run on fresh copies: Size/BlockSize/Sum; Write(0|1); Write(blocksize); Write(200) Sum Write(200) Sum; Reset Sum Write(200) Sum; Write(bs-1) Write(2) Sum. Any panic is a violation, except the documented 'Write/Sum after Read' panic of a Keccak state whose direction byte says squeezing. One evaluation = one history (a) or one byte string handed to UnmarshalBinary (b).")
 	m.Assume("Go runtime panics (index/slice out of range) are the observable for memory-safety of a restored state; h/ref/blake2 and h/ref/keccakleg are validated by their unit tests (RFC/KAT vectors, hashlib cross-checks); field names used in counters/keys are derived from the documented layout magic||h||c||size||block||offset resp. magic||rate||a||n||direction")
 	if err := refb2.SelfTest(); err != nil {
@@ -360,6 +362,9 @@ func c07bases(m *mon.M, kinds []*c07kind) []c07base {
 	return bases
 }
 
+// zeros is the (read-only) write operand of the probes.
+var zeros = make([]byte, 256)
+
 // probes: each runs on a fresh hash restored from the same bytes.
 var c07probes = []struct {
 	name string
@@ -367,16 +372,19 @@ var c07probes = []struct {
 }{
 	{"Size BlockSize Sum", func(h hash.Hash, bs int) { h.Size(); h.BlockSize(); h.Sum(nil) }},
 	{"Write(0) Write(1) Sum", func(h hash.Hash, bs int) { h.Write(nil); h.Write([]byte{}); h.Write([]byte{1}); h.Sum(nil) }},
-	{"Write(blocksize) Sum", func(h hash.Hash, bs int) { h.Write(make([]byte, bs)); h.Sum(nil) }},
+	{"Write(blocksize) Sum", func(h hash.Hash, bs int) { h.Write(zeros[:bs]); h.Sum(nil) }},
 	{"Write(200) Sum Write(200) Sum", func(h hash.Hash, bs int) {
-		h.Write(make([]byte, 200))
+		h.Write(zeros[:200])
 		h.Sum(nil)
-		h.Write(make([]byte, 200))
+		h.Write(zeros[:200])
 		h.Sum([]byte{1, 2, 3})
 	}},
-	{"Reset Sum Write(200) Sum Size", func(h hash.Hash, bs int) { h.Reset(); h.Sum(nil); h.Write(make([]byte, 200)); h.Sum(nil); h.Size() }},
-	{"Write(bs-1) Write(2) Sum", func(h hash.Hash, bs int) { h.Write(make([]byte, bs-1)); h.Write(make([]byte, 2)); h.Sum(nil) }},
+	{"Reset Sum Write(200) Sum Size", func(h hash.Hash, bs int) { h.Reset(); h.Sum(nil); h.Write(zeros[:200]); h.Sum(nil); h.Size() }},
+	{"Write(bs-1) Write(2) Sum", func(h hash.Hash, bs int) { h.Write(zeros[:bs-1]); h.Write(zeros[:2]); h.Sum(nil) }},
 }
+
+// c07reported: keys that already have a witness in this process.
+var c07reported = map[string]bool{}
 
 // quietPanics is mon.Panics without the stack capture (the hot path sees
 // hundreds of thousands of documented panics).
@@ -422,6 +430,22 @@ func c07try(m *mon.M, k *c07kind, size int, b []byte, origin string) {
 			m.Count("documented_after_read_panics", 1)
 			continue
 		}
+		m.Count("panics_after_accepted_unmarshal", 1)
+		if k.blake && len(b) > k.bs+2 {
+			// cheap path once the specific finding has its witness
+			sz, off := int(b[len(b)-1-k.bs-1]), int(b[len(b)-1])
+			ck := ""
+			switch {
+			case off > k.bs:
+				ck = "unmarshal-accepts-bad-offset:" + k.name
+			case sz > k.max:
+				ck = "unmarshal-accepts-bad-size:" + k.name
+			}
+			if ck != "" && c07reported[ck] {
+				m.Violation(ck, nil) // counted; the first report carries the witness
+				return
+			}
+		}
 		// re-run the same probe on a fresh restore to capture the stack
 		h2 := k.fresh(size)
 		h2.(marshaler).UnmarshalBinary(b)
@@ -439,7 +463,7 @@ func c07try(m *mon.M, k *c07kind, size int, b []byte, origin string) {
 				key = "unmarshal-accepts-bad-size:" + k.name
 			}
 		}
-		m.Count("panics_after_accepted_unmarshal", 1)
+		c07reported[key] = true
 		m.Violation(key, detail)
 		return
 	}
